@@ -9,6 +9,8 @@ import warnings
 
 import numpy as np
 
+from hyverif.core import digest
+
 from hyverif.oracles import transforms_ref as tr
 
 ID = "C02"
@@ -139,6 +141,13 @@ def run_config(ctx, case):
         ctx.check("jacobian.runs", False, f"{name}|raises", case,
                   {"exc": repr(e), "params": actual})
         return
+    # the same points in another memory layout / container: same Jacobian
+    with np.errstate(all="ignore"):
+        aj = float(np.nanmax(np.abs(J[np.isfinite(J)]), initial=0.0))
+    ctx.presentations(f"{name}.jacobian",
+                      lambda x_: np.asarray(call(t.jacobian, x_), dtype=float), [x], J,
+                      case, np.random.default_rng(digest(x) % 2 ** 32), n=1, rtol=1e-9,
+                      atol=1e-12 * aj)
     with np.errstate(all="ignore"):
         rich = np.maximum(np.abs(D1 - D2), np.abs(D0 - D1)) / np.abs(D2)
         fm = np.maximum(ref.fmag(x, y0), mag)
